@@ -31,8 +31,8 @@ TRUSTED_BASE = [
 ]
 MANIFEST = {
     "technique": "Lean 4 proof (functional induction over the mutually recursive renderer; induction over the extends chain) + differential correspondence on generated and exhaustively enumerated inheritance chains",
-    "text": "Theorems inherit_eq_flatten (render of a leaf = declarative flatten of its chain, any length, any nesting), child_renders_only_blocks, required_raises, cycle_raises, dup_rejected_partial/_counterexample, endblock_mismatch_rejected about the model of extends_tag.py; the model is tied to the code by exhaustive small chains / extends graphs / endblock token sequences and random chains of length 1..4.",
-    "note": "Trusted: Lean kernel (axioms propext/Classical.choice/Quot.sound only), the hand model of extends_tag.py, the correspondence harness. Known finding: duplicate block names in a template rendered directly (no extends) are accepted.",
+    "text": "Theorems inherit_eq_flatten (render of a leaf = declarative flatten of its chain, any length, any nesting), stacks_eq_defs, child_renders_only_blocks, required_raises, cycle_raises, dup_rejected_partial/_counterexample, endblock_mismatch_rejected, endblock_rejected_only_on_mismatch, flatten_unbounded_example about the model of extends_tag.py; the model is tied to the code by exhaustive small chains / extends graphs / endblock token sequences and random chains of length 1..4.",
+    "note": "Trusted: Lean kernel (axioms propext/Classical.choice/Quot.sound only), the hand model of extends_tag.py, the correspondence harness. Known findings: duplicate block names in a template rendered directly (no extends) are accepted; a chain with inverted nesting and block.super has no finite flattening and lets Python's RecursionError escape (theorem flatten_unbounded_example).",
 }
 ASSUMPTIONS = [
     "blocks contain text, output of global/loop variables, block.super, nested blocks and for-loops over literal ranges; assign/capture inside blocks are outside the model (a block body is its own local scope)",
